@@ -77,3 +77,67 @@ def toy_call(sim, name):
 
 def diff_keys(a, b):
     return [k for k in a if a.get(k) != b.get(k)] + [k for k in b if k not in a]
+
+
+# ------------------------------------------------------------------------------------------------------------
+# process-global state: class attributes and module globals of the package that are plain data (lists, dicts, sets,
+# numbers, strings).  A read-only query that edits one of them changes later results of EVERY simulation in the
+# process - also of the "uninspected" twin - so twins cannot see it; the fingerprint before/after the query can.
+def _fp(v, depth=5):
+    if v is None or isinstance(v, (bool, int, float, str, bytes)):
+        return v
+    if depth == 0:
+        return "<deep>"
+    if isinstance(v, (list, tuple)):
+        return [type(v).__name__] + [_fp(x, depth - 1) for x in v]
+    if isinstance(v, dict):
+        return {"dict": sorted(((_key(k), _fp(x, depth - 1)) for k, x in v.items()), key=lambda kv: kv[0])}
+    if isinstance(v, (set, frozenset)):
+        return {"set": sorted(_key(x) for x in v)}
+    if isinstance(v, type):
+        return "<class %s>" % v.__qualname__
+    return "<%s>" % type(v).__name__
+
+
+def _key(k):
+    return k.__qualname__ if isinstance(k, type) else repr(k) if isinstance(k, (int, str, bool, float, tuple, type(None))) else "<%s>" % type(k).__name__
+
+
+_TARGETS = {"n": -1, "list": []}
+
+
+def _targets():
+    """(label, owner dict, attribute name) of every plain-data class attribute / module global of the package; the scan
+    is repeated whenever further modules have been imported."""
+    import sys
+    import types
+    n = sum(1 for m in sys.modules if m.startswith("architecture_simulator"))
+    if n == _TARGETS["n"]:
+        return _TARGETS["list"]
+    out = []
+    for mname, mod in list(sys.modules.items()):
+        if mod is None or not mname.startswith("architecture_simulator"):
+            continue
+        for name, val in list(vars(mod).items()):
+            if name.startswith("__"):
+                continue
+            if isinstance(val, type):
+                if val.__module__ != mname:
+                    continue
+                for an, av in list(vars(val).items()):
+                    if an.startswith("_abc_") or an.startswith("__") or (an.startswith("_") and an.endswith("_")) \
+                            or isinstance(av, (types.FunctionType, classmethod, staticmethod, property, type)) or callable(av):
+                        continue
+                    out.append((f"{mname}.{val.__qualname__}.{an}", vars(val), an))
+            elif isinstance(val, (list, dict, set, int, float, str, tuple)) and not isinstance(val, bool):
+                out.append((f"{mname}.{name}", vars(mod), name))
+    _TARGETS["n"], _TARGETS["list"] = n, out
+    return out
+
+
+def global_fingerprint():
+    return {label: _fp(owner.get(attr, "<deleted>")) for label, owner, attr in _targets()}
+
+
+def fingerprint_diff(a, b):
+    return sorted(k for k in set(a) | set(b) if a.get(k) != b.get(k))
